@@ -555,7 +555,7 @@ def exT₂ : List (List Value) :=
    [.text [99], .int 1, .int 4, .int 4, .real 0, .int 4, .int 4, .int 4, .int 1]]
 def exT : List (List Value) :=
   [[.text [97], .int 4, .int 7, .int 2, .real 0x4018e38e38e38e39, .int (-1), .int 5, .int 3, .int 3],
-   [.text [98], .int 3, .int 16, .int 5, .real 0x401638e38e38e390, .int 2, .int 7, .int 7, .int 2],
+   [.text [98], .int 3, .int 16, .int 5, .real 0x401638e38e38e38e, .int 2, .int 7, .int 7, .int 2],
    [.text [99], .int 1, .int 4, .int 4, .real 0, .int 4, .int 4, .int 4, .int 1]]
 theorem exAll_tables : table {} exAll exRows = some exT₁ ∧ table {} exAll exPart₂ = some exT₂ ∧
     table {} exAll (exRows ++ exPart₂) = some exT := by decide +kernel
